@@ -69,6 +69,8 @@ def deps_of(shape: dict, names: list[str]) -> dict[str, list[str]]:
             d[n] = [f"/s{i - 1}/0"] if i else []
         elif k == "scatter":
             d[n] = [] if step == "/a" else (["/a/0"] if step == "/b" else sorted(x for x in names if x.startswith("/b/")))
+        elif k == "record":
+            d[n] = {"/a": [], "/b": ["/a/0"]}[step]
         elif k == "diamond":
             d[n] = {"/a": [], "/b1": ["/a/0"], "/b2": ["/a/0"], "/c": ["/b1/0", "/b2/0"]}[step]
         else:
@@ -108,7 +110,7 @@ class C16(Property):
             "executions, losses and failed attempts is replayed on the Lean job-step model (every action must be enabled, available values = "
             "failure-free values). Corpus: the known finding, scatter re-run inside a recovery workflow, and a forced interleaving (event gates) in which "
             "a second recovery attaches to a running one after the shared producer's re-run has emitted its output but before the scheduler sees it "
-            "completed (hang = violation). Quick: ~7 shapes x 3-4 plans; thorough: 17 shapes x 7 plans.")
+            "completed (hang = violation), and a producer whose output is a record of three files of which one is lost. Quick: ~7 shapes x 3-4 plans; thorough: 17 shapes x 7 plans.")
     trusted_base = ["recovery harness harness/sfv/rt/recov.py (own injectors; events logged at transfer / execute / deletion)",
                     "the abstract job-step model collapses schedule+transfer+execute, treats data as values and availability as a store; tags, "
                     "boundary rules, `restore` and the data manager are exercised by the real runs only"]
@@ -158,6 +160,15 @@ class C16(Property):
                           "gates": [{"job": "/b2/0", "attempt": 1, "wait": "a-emitted-again", "timeout": 30},
                                     {"job": "/a/0", "attempt": 2, "phase": "completed", "signal": "a-emitted-again", "wait": "synced:/b2/0",
                                      "timeout": 30}]})
+        # corpus: a's output is a RECORD (ObjectToken) of three files; b (which reads field f1) fails once fail-stop, losing its own
+        # directories and ONE file of the record: the record is lost as a whole (every field must be available), a must be re-run
+        shr = {"kind": "record"}
+        cases.append({"name": f"ref {json.dumps(shr, sort_keys=True)}", "shape": shr, "plan": [], "max_retries": 6, "ref": True})
+        for lost in (["rec-f1"] if quick else ["rec-f0", "rec-f1", "rec-f2"]):
+            cases.append({"name": f"corpus record-of-three-files: b fails fail-stop, {lost} of a's record lost", "shape": shr, "max_retries": 4,
+                          "timeout": 90,
+                          "plan": [{"step": "/b", "tag": "0", "phase": "execute", "kind": "failstop", "count": 1, "lose": [["/b", "0"]],
+                                    "lose_files": [["/a", "0", lost]]}]})
         results = {}
         for case, status, r in recov.run_cases(cases, timeout=300, workers=6):
             results[case["name"]] = (case, status, r)
